@@ -1,2 +1,397 @@
-(* ServiceProofs.v — theorems about the Service model (C19) *)
-From KV Require Import Service.
+(* ServiceProofs.v — theorems about the Service model (property C19).
+   Part A: the generated facts agree with the model. Part B: limits. Part C: handles.
+   Part D: scans. Part E: simulation of the embedded specification. Part F: deviations. *)
+From Coq Require Import ZArith String Lia.
+From KV Require Import Bytes BytesProofs Spec Memtable WalCodec Engine EngineProofs Iter IterProofs ScanSpec ScanProofs Service.
+From KV.gen Require Import ServiceLimits.
+Open Scope N_scope.
+Local Notation find := Memtable.find.
+
+(* ------------------------------------------------------------------------------------ *)
+(* Part A: facts regenerated from the Go source on every run                              *)
+(* ------------------------------------------------------------------------------------ *)
+
+(* every comparison of a length with a limit in service.go is the one the model makes
+   (len > limit rejects, so len = limit passes), RPC by RPC, in source order *)
+Lemma limit_checks_as_modelled : svc_limit_checks = modelled_limit_checks.
+Proof. reflexivity. Qed.
+
+(* the length-zero rejections: exactly the key checks (and BatchWrite's early return) *)
+Lemma zero_checks_as_modelled :
+  filter (fun x => match snd x with OpEq => true | _ => false end) svc_zero_checks =
+  [("Get", "req.Key", OpEq); ("Put", "req.Key", OpEq); ("Delete", "req.Key", OpEq);
+   ("BatchWrite", "req.Operations", OpEq); ("BatchWrite", "op.Key", OpEq);
+   ("TxGet", "req.Key", OpEq); ("TxPut", "req.Key", OpEq); ("TxDelete", "req.Key", OpEq)]%string.
+Proof. reflexivity. Qed.
+
+(* the limits of the code are the documented ones: keys of 1..4096 bytes, values up to 10 MB,
+   1000 operations per batch *)
+Lemma limits_documented :
+  max_key code_limits = 4096 /\ max_val code_limits = 10 * 1024 * 1024 /\ max_batch code_limits = 1000.
+Proof. repeat split; reflexivity. Qed.
+
+(* ------------------------------------------------------------------------------------ *)
+(* Part B: limits                                                                         *)
+(* ------------------------------------------------------------------------------------ *)
+
+Lemma valid_key_spec : forall L k, valid_key L k = true <-> 1 <= len k <= max_key L.
+Proof.
+  intros L k. unfold valid_key. rewrite andb_true_iff, negb_true_iff, N.eqb_neq, N.leb_le. lia.
+Qed.
+
+Lemma valid_val_spec : forall L v, valid_val L v = true <-> len v <= max_val L.
+Proof. intros L v. unfold valid_val. apply N.leb_le. Qed.
+
+(* exactly at the boundary: size = limit passes, limit + 1 does not; an empty key never passes *)
+Theorem limit_boundaries : forall L k v,
+  (len k = max_key L -> 1 <= max_key L -> valid_key L k = true) /\
+  (len k = max_key L + 1 -> valid_key L k = false) /\
+  (len k = 0 -> valid_key L k = false) /\
+  (len v = max_val L -> valid_val L v = true) /\
+  (len v = max_val L + 1 -> valid_val L v = false).
+Proof.
+  intros L k v. repeat split; intros.
+  - apply valid_key_spec. lia.
+  - destruct (valid_key L k) eqn:E; [apply valid_key_spec in E; lia|reflexivity].
+  - destruct (valid_key L k) eqn:E; [apply valid_key_spec in E; lia|reflexivity].
+  - apply valid_val_spec. lia.
+  - destruct (valid_val L v) eqn:E; [apply valid_val_spec in E; lia|reflexivity].
+Qed.
+
+(* the arguments of a request are within the key / value / batch limits *)
+Definition op_within (L : limits) (o : bwop) : bool :=
+  valid_key L (bw_key o) && (if bw_type o =? 0 then valid_val L (bw_val o) else true).
+
+Definition within_limits (L : limits) (q : request) : bool :=
+  match q with
+  | QGet k | QDelete k _ | QTxGet _ k | QTxDelete _ k => valid_key L k
+  | QPut k v _ | QTxPut _ k v => valid_key L k && valid_val L v
+  | QBatch ops _ => (N.of_nat (length ops) <=? max_batch L) && forallb (op_within L) ops
+  | _ => true
+  end.
+
+Definition rejection (r : response) : Prop := (exists e, r = PErr e) \/ r = PBlocked.
+
+Lemma batch_ops_bad : forall L ops acc,
+  forallb (op_within L) ops = false -> exists e, batch_ops L ops acc = inr e.
+Proof.
+  intros L ops. induction ops as [|o r IH]; intros acc H; [discriminate|].
+  cbn [forallb] in H. cbn [batch_ops]. unfold op_within in H at 1.
+  destruct (valid_key L (bw_key o)) eqn:K; cbn [negb andb] in *; [|eauto].
+  destruct (bw_type o =? 0) eqn:T0.
+  - destruct (valid_val L (bw_val o)) eqn:V; cbn [andb] in H; [apply IH; exact H|eauto].
+  - cbn [andb] in H. destruct (bw_type o =? 1); [apply IH; exact H|eauto].
+Qed.
+
+(* C19_limits: a request outside the limits is refused and nothing changes — neither the
+   engine nor the registry. The refusal is an error; only a BatchWrite that first has to wait
+   for the transaction lock answers "blocked" (its operations are validated after the begin). *)
+Ltac rej := split; [reflexivity|split; [left; eexists; reflexivity|intros _; eexists; reflexivity]].
+
+Theorem limits_reject : forall L ss q,
+  within_limits L q = false ->
+  fst (service_step L ss q) = ss /\ rejection (snd (service_step L ss q)) /\
+  (any_open ss = false -> exists e, snd (service_step L ss q) = PErr e).
+Proof.
+  intros L ss q W. unfold service_step. destruct (fits L q); [|rej].
+  unfold rejection.
+  destruct q as [k|k v s|k s|ops s|o|ro|h|h|h k|h k v|h k|h o| |f|]; cbn [within_limits] in W; try discriminate;
+    cbn [handler].
+  - rewrite W. rej.
+  - apply andb_false_iff in W. destruct (valid_key L k); cbn [negb].
+    + destruct W as [W|W]; [discriminate|]. rewrite W. rej.
+    + rej.
+  - rewrite W. rej.
+  - apply andb_false_iff in W.
+    destruct ops as [|o0 r]; [destruct W as [W|W]; [apply N.leb_gt in W; cbn in W; lia|discriminate]|].
+    destruct (max_batch L <? N.of_nat (length (o0 :: r))) eqn:B; [rej|].
+    destruct W as [W|W]; [apply N.leb_gt in W; apply N.ltb_ge in B; lia|].
+    destruct (any_open ss) eqn:A; [split; [reflexivity|split; [right; reflexivity|discriminate]]|].
+    destruct (batch_ops_bad L (o0 :: r) [] W) as (e & E). rewrite E. rej.
+  - destruct (lookup_h ss h) as [[id t]|]; [|rej].
+    rewrite W. rej.
+  - destruct (lookup_h ss h) as [[id t]|]; [|rej].
+    destruct (is_rw t); cbn [negb]; [|rej].
+    apply andb_false_iff in W. destruct (valid_key L k); cbn [negb].
+    + destruct W as [W|W]; [discriminate|]. rewrite W. rej.
+    + rej.
+  - destruct (lookup_h ss h) as [[id t]|]; [|rej].
+    destruct (is_rw t); cbn [negb]; [|rej].
+    rewrite W. rej.
+Qed.
+
+(* a BatchWrite is validated as a whole before anything is applied: a bad operation anywhere in
+   it — also behind hundreds of good ones — leaves the engine untouched *)
+Corollary batch_all_or_nothing : forall L ss good bad rest s,
+  op_within L bad = false ->
+  s_eng (fst (service_step L ss (QBatch (good ++ bad :: rest) s))) = s_eng ss.
+Proof.
+  intros L ss good bad rest s Hb.
+  assert (W : within_limits L (QBatch (good ++ bad :: rest) s) = false).
+  { cbn [within_limits]. apply andb_false_iff. right. rewrite forallb_app. cbn [forallb].
+    rewrite Hb. cbn [andb]. apply andb_false_r. }
+  destruct (limits_reject L ss _ W) as (E & _). rewrite E. reflexivity.
+Qed.
+
+(* non-vacuity with small limits (keys 1..4, values <= 6, batches <= 3, any message) *)
+Definition L0 : limits := mkLim 4 6 3 1000.
+Definition ss0 : sstate := sinit (mkCfg 1000 10) None.
+
+Example limits_ex :
+  map (fun q => snd (service_step L0 ss0 q))
+      [QPut [1;2;3;4] [1;2;3;4;5;6] false; QPut [1;2;3;4;5] [1] false; QPut [1] [1;2;3;4;5;6;7] true;
+       QPut [] [1] false; QGet [1;2;3;4;5]; QDelete [] true;
+       QBatch [mkBw 0 [1] [1]; mkBw 1 [2] []; mkBw 0 [3] []] false;
+       QBatch [mkBw 0 [1] [1]; mkBw 1 [2] []; mkBw 0 [3] []; mkBw 0 [4] []] false;
+       QBatch [mkBw 0 [1] [1]; mkBw 0 [1;2;3;4;5] [1]] false;
+       QBatch [mkBw 0 [1] [1]; mkBw 0 [2] [1;2;3;4;5;6;7]] false;
+       QBatch [mkBw 1 [2] [1;2;3;4;5;6;7]; mkBw 2 [2] []] false]
+  = [POk; PErr EKey; PErr EValue; PErr EKey; PErr EKey; PErr EKey; POk; PErr EBatch; PErr EKey; PErr EValue;
+     PErr EOpType].
+Proof. vm_compute. reflexivity. Qed.
+
+(* the limits of the code on real sizes: a 4096-byte key passes, 4097 bytes do not *)
+Example key_limit_ex :
+  (snd (service_step code_limits ss0 (QPut (repeat 7 4096) [1] false)),
+   snd (service_step code_limits ss0 (QPut (repeat 7 4097) [1] false)),
+   snd (service_step code_limits ss0 (QGet (repeat 7 4097))))
+  = (POk, PErr EKey, PErr EKey).
+Proof. vm_compute. reflexivity. Qed.
+
+(* ------------------------------------------------------------------------------------ *)
+(* Part C: handles                                                                        *)
+(* ------------------------------------------------------------------------------------ *)
+
+(* every registered id was handed out already *)
+Definition reg_ok (ss : sstate) : Prop := Forall (fun x => fst x <= s_next ss) (s_reg ss).
+
+(* the requests addressed to a handle *)
+Definition on_handle (h : handle) (q : request) : Prop :=
+  q = QCommit h \/ q = QRollback h \/ (exists k, q = QTxGet h k) \/ (exists k v, q = QTxPut h k v) \/
+  (exists k, q = QTxDelete h k) \/ (exists o, q = QTxScan h o).
+
+(* an id that is not registered and will never be handed out again *)
+Definition dead (ss : sstate) (h : handle) : Prop :=
+  match h with
+  | HId n => reg_find n (s_reg ss) = None /\ n <= s_next ss
+  | HBad _ => True
+  end.
+
+Lemma reg_find_remove_same : forall id r, reg_find id (reg_remove id r) = None.
+Proof.
+  intros id r. induction r as [|[i t] r IH]; [reflexivity|]. cbn [reg_remove].
+  destruct (i =? id) eqn:E; [exact IH|]. cbn [reg_find]. rewrite E. exact IH.
+Qed.
+
+Lemma reg_find_remove_other : forall id id' r, id <> id' -> reg_find id (reg_remove id' r) = reg_find id r.
+Proof.
+  intros id id' r H. induction r as [|[i t] r IH]; [reflexivity|]. cbn [reg_remove reg_find].
+  destruct (i =? id') eqn:E.
+  - apply N.eqb_eq in E. subst i. destruct (id' =? id) eqn:E2; [apply N.eqb_eq in E2; congruence|exact IH].
+  - cbn [reg_find]. destruct (i =? id); [reflexivity|exact IH].
+Qed.
+
+Lemma reg_find_set : forall id id' t r,
+  reg_find id (reg_set id' t r) = match reg_find id r with
+                                  | Some t0 => if id =? id' then (if existsb (fun x => fst x =? id') r then Some t else Some t0) else Some t0
+                                  | None => None
+                                  end.
+Proof.
+  intros id id' t r. induction r as [|[i t0] r IH]; [reflexivity|]. cbn [reg_set reg_find existsb fst].
+  destruct (i =? id') eqn:E.
+  - apply N.eqb_eq in E. subst i. cbn [reg_find]. destruct (id' =? id) eqn:E2.
+    + apply N.eqb_eq in E2. subst id'. rewrite N.eqb_refl. reflexivity.
+    + destruct (reg_find id r); [|reflexivity]. rewrite N.eqb_sym, E2. reflexivity.
+  - cbn [reg_find orb]. destruct (i =? id) eqn:E2.
+    + apply N.eqb_eq in E2. subst i. rewrite E. reflexivity.
+    + exact IH.
+Qed.
+
+Lemma reg_find_set_none : forall id id' t r, reg_find id r = None -> reg_find id (reg_set id' t r) = None.
+Proof. intros. rewrite reg_find_set, H. reflexivity. Qed.
+
+Lemma reg_find_app : forall id a b,
+  reg_find id (a ++ b) = match reg_find id a with Some t => Some t | None => reg_find id b end.
+Proof.
+  intros id a b. induction a as [|[i t] a IH]; [reflexivity|]. cbn [app reg_find].
+  destruct (i =? id); [reflexivity|exact IH].
+Qed.
+
+Lemma Forall_reg_remove : forall (P : N * txrec -> Prop) id r, Forall P r -> Forall P (reg_remove id r).
+Proof.
+  intros P id r H. induction H as [|[i t] r Hx Hr IH]; [constructor|]. cbn [reg_remove].
+  destruct (i =? id); [exact IH|constructor; assumption].
+Qed.
+
+Lemma Forall_reg_set : forall (P : N * txrec -> Prop) id t r,
+  (forall t0, P (id, t0) -> P (id, t)) -> Forall P r -> Forall P (reg_set id t r).
+Proof.
+  intros P id t r Hp H. induction H as [|[i t0] r Hx Hr IH]; [constructor|]. cbn [reg_set].
+  destruct (i =? id) eqn:E.
+  - apply N.eqb_eq in E. subst i. constructor; [eapply Hp; exact Hx|exact Hr].
+  - constructor; assumption.
+Qed.
+
+Lemma lookup_h_some : forall ss h id t, lookup_h ss h = Some (id, t) -> h = HId id /\ reg_find id (s_reg ss) = Some t.
+Proof.
+  intros ss [n|s] id t H; cbn [lookup_h] in H; [|discriminate].
+  destruct (reg_find n (s_reg ss)) eqn:E; [|discriminate]. inversion H. subst. split; [reflexivity|exact E].
+Qed.
+
+Lemma lookup_h_dead : forall ss h, dead ss h -> lookup_h ss h = None.
+Proof. intros ss [n|s] D; cbn [lookup_h]; [destruct D as (E & _); rewrite E|]; reflexivity. Qed.
+
+(* the registry and the counter after one request *)
+Lemma handler_reg : forall L ss q,
+  let ss' := fst (handler L ss q) in
+  s_next ss <= s_next ss' /\
+  (reg_ok ss -> reg_ok ss') /\
+  (forall h, dead ss h -> dead ss' h) /\
+  s_info ss' = s_info ss.
+Proof.
+  intros L ss q.
+  assert (Same : forall e, let ss' := set_eng ss e in
+            s_next ss <= s_next ss' /\ (reg_ok ss -> reg_ok ss') /\ (forall h, dead ss h -> dead ss' h) /\ s_info ss' = s_info ss).
+  { intros e. cbn. repeat split; [lia|tauto|tauto]. }
+  assert (Id : s_next ss <= s_next ss /\ (reg_ok ss -> reg_ok ss) /\ (forall h, dead ss h -> dead ss h) /\ s_info ss = s_info ss).
+  { repeat split; [lia|tauto|tauto]. }
+  assert (Rem : forall id e, let ss' := set_eng (set_reg ss (reg_remove id (s_reg ss))) e in
+            s_next ss <= s_next ss' /\ (reg_ok ss -> reg_ok ss') /\ (forall h, dead ss h -> dead ss' h) /\ s_info ss' = s_info ss).
+  { intros id e. cbn. repeat split; [lia| |].
+    - unfold reg_ok. cbn. apply Forall_reg_remove.
+    - intros [n|s] D; [|exact I]. cbn in *. destruct D as (D1 & D2). split; [|exact D2].
+      destruct (N.eq_dec n id) as [->|Hne]; [apply reg_find_remove_same|].
+      rewrite reg_find_remove_other by exact Hne. exact D1. }
+  assert (Upd : forall id t, let ss' := set_reg ss (reg_set id t (s_reg ss)) in
+            s_next ss <= s_next ss' /\ (reg_ok ss -> reg_ok ss') /\ (forall h, dead ss h -> dead ss' h) /\ s_info ss' = s_info ss).
+  { intros id t. cbn. repeat split; [lia| |].
+    - unfold reg_ok. cbn. apply Forall_reg_set. intros t0 H. exact H.
+    - intros [n|s] D; [|exact I]. cbn in *. destruct D as (D1 & D2). split; [|exact D2].
+      apply reg_find_set_none. exact D1. }
+  destruct q as [k|k v s|k s|ops s|o|ro|h|h|h k|h k v|h k|h o| |f|]; cbn [handler].
+  - destruct (valid_key L k); exact Id.
+  - destruct (valid_key L k); cbn [negb]; [|exact Id]. destruct (valid_val L v); cbn [negb]; [|exact Id].
+    unfold eng_write. cbn [fst]. apply Same.
+  - destruct (valid_key L k); cbn [negb]; [|exact Id]. unfold eng_write. cbn [fst]. apply Same.
+  - destruct ops as [|o0 r]; [exact Id|]. destruct (max_batch L <? _); [exact Id|].
+    destruct (any_open ss); [exact Id|]. destruct (batch_ops L (o0 :: r) []); [|exact Id].
+    unfold eng_write. cbn [fst]. apply Same.
+  - destruct (rw_open ss); exact Id.
+  - destruct (if ro then rw_open ss else any_open ss); [exact Id|]. cbn [fst s_next s_reg s_info].
+    repeat split; [lia| |].
+    + unfold reg_ok. cbn. intros H. apply Forall_app. split.
+      * eapply Forall_impl; [|exact H]. cbn. intros a Ha. lia.
+      * constructor; [cbn; lia|constructor].
+    + intros [n|s] D; [|exact I]. cbn in *. destruct D as (D1 & D2). split; [|lia].
+      rewrite reg_find_app, D1. cbn [reg_find]. destruct (s_next ss + 1 =? n) eqn:E; [apply N.eqb_eq in E; lia|reflexivity].
+  - destruct (lookup_h ss h) as [[id t]|]; [|exact Id]. destruct (t_mode t).
+    + cbn [fst]. pose proof (Rem id (s_eng ss)) as R. cbn in R. cbn. exact R.
+    + unfold eng_write. cbn [fst]. pose proof (Rem id (fst (tx_commit (s_eng ss) (t_buf t)))) as R. cbn in R. cbn. exact R.
+  - destruct (lookup_h ss h) as [[id t]|]; [|exact Id]. cbn [fst].
+    pose proof (Rem id (s_eng ss)) as R. cbn in R. cbn. exact R.
+  - destruct (lookup_h ss h) as [[id t]|]; [|exact Id]. destruct (valid_key L k); exact Id.
+  - destruct (lookup_h ss h) as [[id t]|]; [|exact Id]. destruct (is_rw t); cbn [negb]; [|exact Id].
+    destruct (valid_key L k); cbn [negb]; [|exact Id]. destruct (valid_val L v); cbn [negb]; [|exact Id].
+    cbn [fst]. apply Upd.
+  - destruct (lookup_h ss h) as [[id t]|]; [|exact Id]. destruct (is_rw t); cbn [negb]; [|exact Id].
+    destruct (valid_key L k); cbn [negb]; [|exact Id]. cbn [fst]. apply Upd.
+  - destruct (lookup_h ss h) as [[id t]|]; exact Id.
+  - destruct (rw_open ss); exact Id.
+  - destruct (any_open ss); [exact Id|]. unfold eng_write. cbn [fst]. apply Same.
+  - match goal with |- context [fst ?x] => replace (fst x) with ss by (destruct (s_info ss); reflexivity) end.
+    exact Id.
+Qed.
+
+Lemma sstep_reg : forall L ss o,
+  let ss' := fst (sstep L ss o) in
+  (reg_ok ss -> reg_ok ss') /\ (forall h, dead ss h -> dead ss' h) /\ s_info ss' = s_info ss.
+Proof.
+  intros L ss [q|]; cbn [sstep].
+  - unfold service_step. destruct (fits L q).
+    + destruct (handler L ss q) as [ss' r] eqn:E. cbn [fst].
+      pose proof (handler_reg L ss q) as H. rewrite E in H. cbn [fst] in H. tauto.
+    + cbn [fst]. tauto.
+  - cbn. tauto.
+Qed.
+
+Lemma srun_cons : forall L ss o r,
+  fst (srun L ss (o :: r)) = fst (srun L (fst (sstep L ss o)) r).
+Proof.
+  intros. cbn [srun]. destruct (sstep L ss o) as [ss1 x]. cbn [fst].
+  destruct (srun L ss1 r). reflexivity.
+Qed.
+
+Lemma srun_reg : forall L prog ss,
+  let ss' := fst (srun L ss prog) in
+  (reg_ok ss -> reg_ok ss') /\ (forall h, dead ss h -> dead ss' h) /\ s_info ss' = s_info ss.
+Proof.
+  intros L prog. induction prog as [|o r IH]; intros ss; [cbn; tauto|].
+  cbn zeta. rewrite srun_cons. pose proof (sstep_reg L ss o) as S. pose proof (IH (fst (sstep L ss o))) as R.
+  cbn zeta in *. destruct S as (S1 & S2 & S3). destruct R as (R1 & R2 & R3).
+  repeat split; [tauto|intros; apply R2, S2; assumption|congruence].
+Qed.
+
+Lemma reg_ok_init : forall c p, reg_ok (sinit c p).
+Proof. intros. constructor. Qed.
+
+(* a request on a dead handle: "transaction not found", nothing changes *)
+Lemma dead_handle_request : forall L ss h q,
+  dead ss h -> on_handle h q ->
+  fst (service_step L ss q) = ss /\
+  (fits L q = true -> snd (service_step L ss q) = PErr ENoTx) /\
+  (fits L q = false -> snd (service_step L ss q) = PErr EMsg).
+Proof.
+  intros L ss h q D O. pose proof (lookup_h_dead ss h D) as E. unfold service_step.
+  destruct O as [->|[->|[(k & ->)|[(k & v & ->)|[(k & ->)|(o & ->)]]]]];
+    (destruct (fits L _); cbn [handler]; [rewrite E|]; repeat split; congruence).
+Qed.
+
+(* C19_handle_dead: after CommitTransaction or RollbackTransaction of a registered handle —
+   whatever the commit itself returned — the handle is dead, and it stays dead through every
+   later program: each request on it answers "transaction not found" and changes nothing *)
+Theorem handle_dead : forall L ss h q,
+  reg_ok ss -> lookup_h ss h <> None -> (q = QCommit h \/ q = QRollback h) -> fits L q = true ->
+  forall prog q',
+    let ss2 := fst (srun L (fst (service_step L ss q)) prog) in
+    on_handle h q' ->
+    fst (service_step L ss2 q') = ss2 /\
+    (fits L q' = true -> snd (service_step L ss2 q') = PErr ENoTx).
+Proof.
+  intros L ss h q Rok Hl Hq F prog q' ss2 O.
+  assert (D : dead (fst (service_step L ss q)) h).
+  { destruct (lookup_h ss h) as [[id t]|] eqn:E; [|congruence].
+    destruct (lookup_h_some ss h id t E) as (-> & Ef).
+    assert (Hid : id <= s_next ss).
+    { unfold reg_ok in Rok. rewrite Forall_forall in Rok.
+      clear - Ef Rok. induction (s_reg ss) as [|[i t0] r IH]; [discriminate|]. cbn [reg_find] in Ef.
+      destruct (i =? id) eqn:E1.
+      - apply N.eqb_eq in E1. subst i. apply (Rok (id, t0)). left. reflexivity.
+      - apply IH; [|exact Ef]. intros x Hx. apply Rok. right. exact Hx. }
+    unfold service_step. rewrite F.
+    destruct Hq as [->| ->]; cbn [handler]; rewrite E.
+    - destruct (t_mode t); unfold eng_write; cbn; (split; [apply reg_find_remove_same|exact Hid]).
+    - cbn. split; [apply reg_find_remove_same|exact Hid]. }
+  pose proof (srun_reg L prog (fst (service_step L ss q))) as (_ & R & _). specialize (R h D). fold ss2 in R.
+  destruct (dead_handle_request L ss2 h q' R O) as (A & B & _). split; assumption.
+Qed.
+
+(* a handle the registry never issued (any other string, or an id of the future) *)
+Theorem unknown_handle : forall L ss h q,
+  lookup_h ss h = None -> on_handle h q -> fits L q = true ->
+  service_step L ss q = (ss, PErr ENoTx).
+Proof.
+  intros L ss h q E O F. unfold service_step.
+  destruct O as [->|[->|[(k & ->)|[(k & v & ->)|[(k & ->)|(o & ->)]]]]]; rewrite F; cbn [handler]; rewrite E; reflexivity.
+Qed.
+
+(* non-vacuity: begin, write, commit, then every request on the id; a second begin gets a new id *)
+Example handle_dead_ex :
+  snd (srun L0 ss0 (map SReq
+    [QBegin false; QTxPut (HId 1) [1] [2]; QTxGet (HId 1) [1]; QCommit (HId 1);
+     QTxGet (HId 1) [1]; QTxPut (HId 1) [1] [3]; QTxDelete (HId 1) [1]; QTxScan (HId 1) (mkScan [] [] [] [] 0);
+     QCommit (HId 1); QRollback (HId 1); QBegin true; QGet [1]; QTxGet (HBad [116;120;45;48;49]) [1];
+     QTxPut (HId 2) [1] [1]; QRollback (HId 2); QRollback (HId 2); QTxGet (HId 7) [1]]))
+  = [PBegun 1; POk; PValue (Some [2]); POk;
+     PErr ENoTx; PErr ENoTx; PErr ENoTx; PErr ENoTx; PErr ENoTx; PErr ENoTx; PBegun 2; PValue (Some [2]);
+     PErr ENoTx; PErr EROTx; POk; PErr ENoTx; PErr ENoTx].
+Proof. vm_compute. reflexivity. Qed.
